@@ -335,31 +335,42 @@ end SigModel.Props.C11
 
 The machine of `SigModel/Model/ConcCreate.lean`: any number of ingest calls (each: getSegStore under the read lock;
 if the stream has no SegStore, createSegStore = Lock, re-check, build (suffix file read, suffix file write), insert,
-deferred Unlock; then AddEntry under the store's own lock and the acknowledgement), flush + rotation of the
-registered stores, and removeStaleSegments, in ANY interleaving.  A step that needs `allSegStoresLock` is not
-enabled while a call holds it.  `Cfg.real` = the statement order of createSegStore extracted from the source (facts
-C11.create.order, C11.getOrCreate.order, C11.lock.getSegStore, C11.addEntry.order, C11.suffix.order), replayed
-step by step on the real writer by the `c11c` op lines of suite `conc`.
+deferred Unlock; then AddEntry under the store's own lock — which refuses a store that removeStaleSegments has
+marked, so that the call starts over — and the acknowledgement), flush + rotation of the registered stores, and
+removeStaleSegments (under the table lock and the store's lock: mark, delete), in ANY interleaving.  A step that
+needs `allSegStoresLock` is not enabled while a call holds it.  `Cfg.real` = the statement order of createSegStore
+and the mark-and-retry protocol extracted from the source (facts C11.create.order, C11.getOrCreate.order,
+C11.lock.getSegStore, C11.addEntry.order, C11.addEntry.removed, C11.evict.order, C11.suffix.order), replayed step
+by step on the real writer by the `c11c` op lines of suite `conc`.  `Cfg.realOld` is the code BEFORE the repair
+of removeStaleSegments / AddEntryToInMemBuf (no mark, no retry); its counterexample theorems are kept under names
+ending in `_old`.
 
 An acknowledged event is LOST (`Lost s e r`) when it is not persistent and its store `r` is not the registered
 store of its stream: the flush timers, forced rotation and the shutdown flush iterate over the table only. -/
 namespace SigModel.Props.C11.Create
 open SigModel.ConcCreate
 
-/-- the state reached from the empty engine by a schedule: createSegStore as it is -/
+/-- the state reached from the empty engine by a schedule: the code as it is -/
 abbrev reach (sched : List Label) : St := run Cfg.real init sched
 
-/-- C11 (table) `no_lost_ack`, FULL statement: in every interleaving of ingest calls, flushes and evictions no
-acknowledged event is lost.  FALSE for the code as it is — see `create_no_lost_ack_counterexample`. -/
-def NoLostAck : Prop :=
-  ∀ (sched : List Label) (e r : Nat), ¬ Lost (reach sched) e r
+/-- … and the code before removeStaleSegments marked the store it deletes and AddEntryToInMemBuf started over -/
+abbrev reachOld (sched : List Label) : St := run Cfg.realOld init sched
 
-/-- The full statement is refuted by removeStaleSegments: call 0 creates the store of stream 0 and appends, the
-store is flushed and rotated (no records left); call 1 gets the store from getSegStore; removeStaleSegments deletes
-it from the table; call 1 appends to it and is acknowledged — no flush will ever reach that store.
-(Replayed on the real writer: suite `conc`, `c11c 1 c0 c0 c0 c0 c0 c0 c0 c0 f0 c1 e0 c1 c2`; known finding
-create/lost-ack/evicted-before-append.) -/
-theorem create_no_lost_ack_counterexample : ¬ NoLostAck := by
+/-- C11 (table) `no_lost_ack`, FULL statement: in EVERY interleaving of any number of ingest calls on any streams,
+flushes + rotations and removeStaleSegments passes (at any moment — the idle horizon is not used) no acknowledged
+event is lost: every acknowledged event is persistent or sits in the registered store of its stream. -/
+theorem create_no_lost_ack (sched : List Label) (e r : Nat) : ¬ Lost (reach sched) e r := by
+  intro ⟨h1, h2, h3⟩
+  rcases ((Lemmas.C11f.inv_reach sched).ack e r h1).2 with hp | ⟨_, hreg⟩
+  · exact h2 hp
+  · exact h3 hreg
+
+/-- BEFORE the repair the statement was false: call 0 creates the store of stream 0 and appends, the store is
+flushed and rotated (no records left); call 1 gets the store from getSegStore; removeStaleSegments deletes it from
+the table; call 1 appends to it and is acknowledged — no flush ever reached that store.
+(Was replayed on the real writer: suite `conc`, `c11c 1 c0 c0 c0 c0 c0 c0 c0 c0 f0 c1 e0 c1 c2`.) -/
+theorem create_no_lost_ack_counterexample_old :
+    ¬ (∀ (sched : List Label) (e r : Nat), ¬ Lost (reachOld sched) e r) := by
   intro h
   have := h [.call 0 0, .call 0 0, .call 0 0, .call 0 0, .call 0 0, .call 0 0, .call 0 0, .call 0 0,
              .flush 0, .call 1 0, .evict 0, .call 1 0] 1 0
@@ -367,37 +378,27 @@ theorem create_no_lost_ack_counterexample : ¬ NoLostAck := by
   decide
 
 /-- … and, the same window one call earlier, by an eviction between createSegStore and the AddEntry of the very
-call that created the store (`c11c 1 c0 c0 c0 c0 c0 c0 c0 e0 c0`). -/
-theorem create_no_lost_ack_counterexample_creator :
-    ∃ (sched : List Label) (e r : Nat), Lost (reach sched) e r :=
+call that created the store (`c11c 1 c0 c0 c0 c0 c0 c0 c0 e0 c0`; with the stale horizon of 900 ns instead of
+900 s that the code had, any pass of removeStaleSegments could do it). -/
+theorem create_no_lost_ack_counterexample_creator_old :
+    ∃ (sched : List Label) (e r : Nat), Lost (reachOld sched) e r :=
   ⟨[.call 0 0, .call 0 0, .call 0 0, .call 0 0, .call 0 0, .call 0 0, .call 0 0, .evict 0, .call 0 0], 0, 0, by decide⟩
 
-/-- C11 (table) `no_lost_ack`, PARTIAL: in every interleaving — any number of calls on any streams, flushes,
-evictions — in which no eviction of a stream's store is taken while a call holds a pointer to that registered
-store that it has not appended to yet (`evictSafe`, decidable on the schedule), no acknowledged event is lost:
-every acknowledged event is persistent or sits in the registered store of its stream. -/
-theorem create_no_lost_ack_partial (sched : List Label) (hg : evictSafe Cfg.real init sched = true) (e r : Nat) :
-    ¬ Lost (reach sched) e r := by
-  intro ⟨h1, h2, h3⟩
-  have hinv := Lemmas.C11f.inv_run (g := true) sched init (Lemmas.C11f.inv_init true)
-    (fun _ => Lemmas.C11f.runOk_of_evictSafe sched init hg)
-  rcases (hinv.ack rfl e r h1).2 with hp | ⟨_, hreg⟩
-  · exact h2 hp
-  · exact h3 hreg
-
-/-- … in particular for every interleaving of k first ingests (any k, any schedule) with flushes and no eviction. -/
-theorem create_no_lost_ack_without_eviction (sched : List Label) (hf : evictFree sched = true) (e r : Nat) :
-    ¬ Lost (reach sched) e r :=
-  create_no_lost_ack_partial sched (Lemmas.C11f.evictSafe_of_evictFree sched init hf) e r
-
-/-- the guard is satisfiable with evictions that do happen: a store is created, filled, rotated, evicted, and two
-calls then race on the stream again — both end up in ONE new store, nothing is lost. -/
+/-- the two former witness schedules now: the call whose store was evicted under its hands appends nothing to it,
+starts over, and ends up — acknowledged once — in the new registered store. -/
 example :
     let sched : List Label := [.call 0 0, .call 0 0, .call 0 0, .call 0 0, .call 0 0, .call 0 0, .call 0 0, .call 0 0,
-      .flush 0, .evict 0, .call 1 0, .call 2 0, .call 1 0, .call 2 0, .call 1 0, .call 1 0, .call 1 0, .call 1 0,
-      .call 1 0, .call 1 0, .call 2 0, .call 2 0, .call 2 0, .call 2 0]
-    evictSafe Cfg.real init sched = true ∧ (reach sched).acked = [(0, 0), (1, 1), (2, 1)] ∧
-    (reach sched).table 0 = some 1 ∧ (reach sched).nstores = 2 := by
+      .flush 0, .call 1 0, .evict 0, .call 1 0,
+      .call 1 0, .call 1 0, .call 1 0, .call 1 0, .call 1 0, .call 1 0, .call 1 0, .call 1 0]
+    ((reach (sched.take 12)).thread 1).pc = .retry ∧ (reach (sched.take 12)).acked = [(0, 0)] ∧
+    (reach sched).acked = [(0, 0), (1, 1)] ∧ (reach sched).table 0 = some 1 ∧
+    ((reach sched).store 0).removed = true ∧ ((reach sched).store 0).events = [] := by
+  decide
+
+example :
+    let sched : List Label := [.call 0 0, .call 0 0, .call 0 0, .call 0 0, .call 0 0, .call 0 0, .call 0 0, .evict 0,
+      .call 0 0, .call 0 0, .call 0 0, .call 0 0, .call 0 0, .call 0 0, .call 0 0, .call 0 0, .call 0 0]
+    (reach sched).acked = [(0, 1)] ∧ (reach sched).table 0 = some 1 := by
   decide
 
 /-- C11 (table) `one_store_per_stream`: in every eviction-free interleaving, of all the stores ever built for a
@@ -405,10 +406,8 @@ stream there is exactly one — k concurrent first ingests create ONE SegStore. 
 theorem create_one_store_per_stream (sched : List Label) (hf : evictFree sched = true) (m1 m2 : Nat)
     (h1 : m1 < (reach sched).nstores) (h2 : m2 < (reach sched).nstores)
     (hs : ((reach sched).store m1).stream = ((reach sched).store m2).stream) : m1 = m2 := by
-  have hsafe := Lemmas.C11f.evictSafe_of_evictFree sched init hf
-  have hinv := Lemmas.C11f.inv_run (g := true) sched init (Lemmas.C11f.inv_init true)
-    (fun _ => Lemmas.C11f.runOk_of_evictSafe sched init hsafe)
-  have hb := Lemmas.C11f.built_run sched init (Lemmas.C11f.inv_init true) Lemmas.C11f.built_init hf
+  have hinv := Lemmas.C11f.inv_reach sched
+  have hb := Lemmas.C11f.built_run sched init Lemmas.C11f.inv_init Lemmas.C11f.built_init hf
   simp only [reach] at *
   generalize run Cfg.real init sched = s at *
   -- a store waiting for its insert: the table has no entry for its stream, and its builder holds the lock
@@ -419,7 +418,7 @@ theorem create_one_store_per_stream (sched : List Label) (hf : evictFree sched =
     have hl := Lemmas.C11f.p4_holds ht hpc
     unfold Lemmas.C11f.ThreadOk at ht
     simp only [hpc] at ht
-    rcases ht.2 with ⟨h, _⟩ | ⟨h, _⟩ | ⟨h, _⟩ | ⟨h, _⟩ | ⟨_, _, h3, m', h4, _, h6⟩ | ⟨h, _⟩
+    rcases ht.2 with ⟨h, _⟩ | ⟨h, _⟩ | ⟨h, _⟩ | ⟨h, _⟩ | ⟨_, _, h3, m', h4, _, h6, _⟩ | ⟨h, _⟩
     all_goals first | (simp at h; done) | skip
     rw [hm] at h4
     have := Option.some.inj h4
@@ -437,31 +436,36 @@ theorem create_one_store_per_stream (sched : List Label) (hf : evictFree sched =
     rw [q1] at q2
     exact Option.some.inj q2
 
-/-- C11 (table) `append_target_registered`: under the eviction guard, a call that is about to append holds the
-REGISTERED store of its own stream (whether it got it from getSegStore, from the re-check or built it itself). -/
-theorem create_append_target_registered (sched : List Label) (hg : evictSafe Cfg.real init sched = true) (t : Nat)
+/-- C11 (table) `append_target_registered`: in every interleaving, the store that a call is about to append to is
+the REGISTERED store of the call's stream — or it carries the mark of removeStaleSegments, and then AddEntry
+refuses it. -/
+theorem create_append_target_registered (sched : List Label) (t : Nat)
     (hp : ((reach sched).thread t).pc = .append) :
-    ∃ r, ((reach sched).thread t).ret = some r ∧ (reach sched).table ((reach sched).thread t).stream = some r := by
-  have ht := (Lemmas.C11f.inv_run (g := true) sched init (Lemmas.C11f.inv_init true)
-    (fun _ => Lemmas.C11f.runOk_of_evictSafe sched init hg)).th t
+    ∃ r, ((reach sched).thread t).ret = some r ∧
+      (((reach sched).store r).removed = false → (reach sched).table ((reach sched).thread t).stream = some r) := by
+  have ht := (Lemmas.C11f.inv_reach sched).th t
   unfold Lemmas.C11f.ThreadOk at ht
   simp only [reach] at *
   simp only [hp] at ht
   obtain ⟨_, _, r, h1, _, _, h4⟩ := ht
-  exact ⟨r, h1, h4 rfl⟩
+  exact ⟨r, h1, h4⟩
 
-/-- C11 (table) `suffix_handed_out_once`: in EVERY interleaving (evictions included, no guard) no segment suffix of
-a stream is handed out twice — by the creating calls (GetNextSuffix under allSegStoresLock) and by the rotations. -/
+/-- … and a store in the table never carries the mark. -/
+theorem create_registered_store_not_removed (sched : List Label) (i r : Nat) (h : (reach sched).table i = some r) :
+    ((reach sched).store r).removed = false :=
+  ((Lemmas.C11f.inv_reach sched).tab i r h).2.2
+
+/-- C11 (table) `suffix_handed_out_once`: in every interleaving no segment suffix of a stream is handed out
+twice — by the creating calls (GetNextSuffix under allSegStoresLock) and by the rotations. -/
 theorem create_suffix_handed_out_once (sched : List Label) : (reach sched).handed.Nodup :=
-  (Lemmas.C11f.inv_run (g := false) sched init (Lemmas.C11f.inv_init false) (fun h => by simp at h)).nodup
+  (Lemmas.C11f.inv_reach sched).nodup
 
-/-- C11 (table) "no deadlock" at the level of the lock protocol: in EVERY interleaving, a call that holds
+/-- C11 (table) "no deadlock" at the level of the lock protocol: in every interleaving, a call that holds
 allSegStoresLock is inside createSegStore past its `lock` statement — its next statement never waits — and the
 `unlock` is still ahead of it. -/
 theorem create_lock_holder_can_move (sched : List Label) (t : Nat) (h : (reach sched).lock = some t) :
     ∃ a rest, ((reach sched).thread t).pc = .create (a :: rest) ∧ a ≠ .lock ∧ CStep.unlock ∈ a :: rest := by
-  have ht := (Lemmas.C11f.inv_run (g := false) sched init (Lemmas.C11f.inv_init false) (fun h => by simp at h)).th t
-  obtain ⟨todo, hpc, hc⟩ := Lemmas.C11f.holder_pc ht h
+  obtain ⟨todo, hpc, hc⟩ := Lemmas.C11f.holder_pc ((Lemmas.C11f.inv_reach sched).th t) h
   rcases hc with hc | hc | hc | hc | hc <;> subst hc <;> exact ⟨_, _, hpc, by decide, by decide⟩
 
 /-- … hence, once every started call has returned, the lock is free. -/
@@ -474,24 +478,23 @@ theorem create_lock_free_at_quiescence (sched : List Label)
     obtain ⟨a, rest, hpc, _⟩ := create_lock_holder_can_move sched t hl
     rcases hq t with h | h <;> rw [hpc] at h <;> simp at h
 
-/-- C11 (table): every call that has returned was acknowledged (createSegStore as it is never fails a call) … -/
+/-- C11 (table): every call that has returned was acknowledged (no call fails, a call that had to start over is
+acknowledged for the store it finally appended to) … -/
 theorem create_done_is_acked (sched : List Label) (t : Nat) (hd : ((reach sched).thread t).pc = .done) :
     ∃ r, (t, r) ∈ (reach sched).acked := by
-  have ht := (Lemmas.C11f.inv_run (g := false) sched init (Lemmas.C11f.inv_init false) (fun h => by simp at h)).th t
+  have ht := (Lemmas.C11f.inv_reach sched).th t
   unfold Lemmas.C11f.ThreadOk at ht
   simp only [reach] at *
   simp only [hd] at ht
   exact ht.2.2
 
-/-- … and "once activity stops the stored contents are those of a sequential execution": under the eviction
-guard, if the lock is free (e.g. every call has returned), ONE flush of its stream makes an acknowledged event
-persistent — nothing acknowledged is out of the reach of the flush. -/
-theorem create_flush_makes_acked_persistent (sched : List Label) (hg : evictSafe Cfg.real init sched = true)
+/-- … and "once activity stops the stored contents are those of a sequential execution": if the lock is free (e.g.
+every call has returned), ONE flush of its stream makes an acknowledged event persistent — nothing acknowledged is
+out of the reach of the flush. -/
+theorem create_flush_makes_acked_persistent (sched : List Label)
     (hl : (reach sched).lock = none) (e r : Nat) (ha : (e, r) ∈ (reach sched).acked) :
     e ∈ (reach (sched ++ [.flush ((reach sched).store r).stream])).persisted := by
-  have hinv := Lemmas.C11f.inv_run (g := true) sched init (Lemmas.C11f.inv_init true)
-    (fun _ => Lemmas.C11f.runOk_of_evictSafe sched init hg)
-  have hk := (hinv.ack rfl e r ha).2
+  have hk := ((Lemmas.C11f.inv_reach sched).ack e r ha).2
   simp only [reach, run, List.foldl_append, List.foldl_cons, List.foldl_nil] at *
   generalize List.foldl (step Cfg.real) init sched = s at *
   simp only [step, flushStep, hl]
